@@ -494,6 +494,31 @@ def _run(ctx, module, args):
     except DriverBroken as e:
         obligations.append(Obligation('correspondence(model vs /repo)', 'correspondence', False,
                                       'driver broken: {}'.format(e)))
+    except (Infra, subprocess.TimeoutExpired, KeyboardInterrupt):
+        raise
+    except Exception as e:  # noqa
+        # An exception that escapes the harness while it is executing code of the tree under
+        # test (a traceback frame lies under <REPO>/odl) is behaviour of that tree the harness
+        # did not expect: the correspondence is broken at that call (then the search runs).
+        # Anything else is a defect of the machinery itself (exit 2).
+        import traceback as _tb
+        frames = _tb.extract_tb(e.__traceback__)
+        lib = os.path.join(os.path.realpath(REPO), 'odl') + os.sep
+        inlib = [f for f in frames if os.path.realpath(f.filename).startswith(lib)]
+        if not inlib:
+            raise
+        last_h = [f for f in frames if not os.path.realpath(f.filename).startswith(lib)][-1]
+        where = '{}:{} in {} -> {}:{} in {}'.format(
+            os.path.basename(last_h.filename), last_h.lineno, last_h.name,
+            os.path.relpath(inlib[-1].filename, os.path.realpath(REPO)), inlib[-1].lineno,
+            inlib[-1].name)
+        ctx.notes.append('run aborted by an unexpected exception from the library: ' + where)
+        ctx.disagree({'kind': 'unexpected exception from the library during the run',
+                      'where': where, 'harness_line': (last_h.line or '')[:200]},
+                     'no exception', '{}: {}'.format(type(e).__name__, str(e)[:300]))
+        obligations.append(Obligation('correspondence(model vs /repo)', 'correspondence', False,
+                                      'run aborted: {} raised {}: {}'.format(
+                                          where, type(e).__name__, str(e)[:200])))
     # model branches the harness declares it must exercise (module.EXPECTED_BRANCHES: list or
     # callable(ctx)); an unhit one is reported always and is a broken obligation in the
     # thorough tier (silent loss of generator coverage)
